@@ -184,3 +184,113 @@ func TestVerifC08Peerstores(t *testing.T) {
 		}
 	}
 }
+
+// TestVerifC08PeerstoreHistories: the same clause ("for peer records consumed by a peerstore, only if the record's peer
+// ID is the ID of the signing key") against a store that already HOLDS the victim's genuine record: for every ordered
+// pair (attacker k, victim o) of generated keys, every store, every relation of the forged record's sequence number to
+// the stored one (lower, equal, higher) and both orders (genuine first / forged first): a record naming o's ID but
+// sealed by k is never accepted, never changes what the store returns for o, and never keeps the genuine record out.
+func TestVerifC08PeerstoreHistories(t *testing.T) {
+	a := c08New(t, "peerstore-consume-after-history")
+	defer a.flush()
+	keys := c08Keys(t, c08KeysPerType())
+	stores := c08Stores()
+	a.r.Bounds["pairs"] = "every ordered (attacker, victim) pair of the generated keys"
+	a.r.Bounds["forged_seq"] = "stored-1, stored, stored+1"
+	a.r.Bounds["orders"] = "genuine record first, forged record first"
+	good := []ma.Multiaddr{ma.StringCast("/ip4/1.2.3.4/tcp/4001")}
+	evil := []ma.Multiaddr{ma.StringCast("/ip4/6.6.6.6/tcp/666"), ma.StringCast("/ip4/1.2.3.4/tcp/4001")}
+	const seq0 = 5
+	sameAddrs := func(x, y []ma.Multiaddr) bool {
+		if len(x) != len(y) {
+			return false
+		}
+		for _, a := range x {
+			found := false
+			for _, b := range y {
+				found = found || a.Equal(b)
+			}
+			if !found {
+				return false
+			}
+		}
+		return true
+	}
+	seal := func(id peer.ID, addrs []ma.Multiaddr, seq uint64, k *c08Key) *record.Envelope {
+		env0, err := record.Seal(&peer.PeerRecord{PeerID: id, Addrs: addrs, Seq: seq}, k.Priv)
+		if err != nil {
+			t.Fatalf("c08: Seal: %v", err)
+		}
+		wire, err := env0.Marshal()
+		if err != nil {
+			t.Fatalf("c08: Marshal: %v", err)
+		}
+		env, _, err := record.ConsumeEnvelope(wire, peer.PeerRecordEnvelopeDomain)
+		if err != nil {
+			t.Fatalf("c08: ConsumeEnvelope of a freshly sealed record: %v", err)
+		}
+		return env
+	}
+	for _, o := range keys {
+		if a.stop {
+			break
+		}
+		genuine := seal(o.ID, good, seq0, o)
+		for _, k := range keys {
+			if k == o || a.over("peerstore history cases") {
+				continue
+			}
+			if (k.Typ == crypto.RSA || o.Typ == crypto.RSA) && !vrep.Thorough() && k.Typ != o.Typ {
+				continue // RSA signing dominates the quick tier: RSA pairs only among themselves there
+			}
+			for _, ds := range []int{-1, 0, 1} {
+				if !a.mine() {
+					continue
+				}
+				forged := seal(o.ID, evil, uint64(seq0+ds), k)
+				for _, st := range stores {
+					for _, forgedFirst := range []bool{false, true} {
+						a.exec(st.name, []byte(fmt.Sprintf("%s>%s seq%+d forgedFirst=%v", k.Name, o.Name, ds, forgedFirst)), true)
+						a.guard(st.name+".ConsumePeerRecord", func() {
+							book := st.mk(t)
+							defer book.Close()
+							rp := map[string]any{"section": "peerstore-histories", "store": st.name, "attacker": k.Name, "victim": o.Name, "forged_seq_minus_stored": ds, "forged_first": forgedFirst}
+							consumeGenuine := func() bool {
+								acc, err := book.ConsumePeerRecord(genuine, time.Hour)
+								if !acc || err != nil {
+									if forgedFirst {
+										a.r.Violate("forged-record-keeps-genuine-record-out", fmt.Sprintf("%s: after a (refused) record naming %s sealed by %s, the genuine record of %s is refused: (%v,%v)", st.name, o.Name, k.Name, o.Name, acc, err), rp)
+									} else {
+										a.baseline("%s rejects the honest peer record of %s: (%v, %v)", st.name, o.Name, acc, err)
+									}
+									return false
+								}
+								return true
+							}
+							if !forgedFirst && !consumeGenuine() {
+								return
+							}
+							acc, err := book.ConsumePeerRecord(forged, time.Hour)
+							if acc && err == nil {
+								a.r.Outcome(fmt.Sprintf("forged seq%+d forgedFirst=%v: ACCEPTED", ds, forgedFirst))
+								a.r.Violate("peerstore-accepts-record-naming-foreign-peer-id", fmt.Sprintf("%s: %s's genuine record (seq %d) %s; a record naming %s with seq %d sealed by %s is accepted", st.name, o.Name, seq0,
+									map[bool]string{false: "is stored", true: "is not yet stored"}[forgedFirst], o.Name, seq0+ds, k.Name), rp)
+								return
+							}
+							a.r.Outcome(fmt.Sprintf("forged seq%+d forgedFirst=%v: rejected", ds, forgedFirst))
+							if forgedFirst && !consumeGenuine() {
+								return
+							}
+							got := book.GetPeerRecord(o.ID)
+							if got == nil || !got.PublicKey.Equals(o.Pub) || !sameAddrs(book.Addrs(o.ID), good) || len(book.Addrs(k.ID)) != 0 {
+								a.r.Violate("refused-forged-record-changed-the-store", fmt.Sprintf("%s: after the refused record naming %s sealed by %s (seq %d, forged first: %v) the store returns record=%v addrs(victim)=%v addrs(attacker)=%v", st.name, o.Name, k.Name, seq0+ds, forgedFirst,
+									got != nil, book.Addrs(o.ID), book.Addrs(k.ID)), rp)
+							}
+						})
+					}
+				}
+			}
+		}
+	}
+}
+
